@@ -1587,6 +1587,11 @@ def _tie_chunk(exe, cases):
     need_map = []
     for i, m in zip(idx, mod):
         rec = out[i]
+        rec["input_ok"] = True
+        if m.endswith(" !INPUT"):
+            # NoPanic.input_ok (the hypothesis of C07_checker_no_panic) is false of the real compiler's own dump
+            rec["input_ok"] = False
+            m = m[:-len(" !INPUT")]
         if m in ("TIMEOUT", "CRASH"):
             # the model did not answer in time: the case is skipped (counted, never taken as agreement)
             rec["model"] = (m,)
@@ -1607,6 +1612,10 @@ def _tie_chunk(exe, cases):
                 need_map.append(i)
         else:
             rec["agree"] = False
+        if not rec["input_ok"]:
+            # the computable hypothesis of C07_checker_no_panic does not hold of what name resolution produced
+            rec["agree"] = False
+            rec["model"] = tuple(rec["model"]) + ("input_ok=false",)
     # file of the first error: the model reports the file id of the span, the compiler the path
     if need_map:
         tr = vlib.harness("tree", [lines[i] for i in need_map])
